@@ -78,6 +78,20 @@ def gen_cases(rng, tier, boost=1):
            'schedule': list(bits) + [0, 1] * 4}
 
 
+  # one pre-emption, at every point of the first thread's run (and of the second's): thread A runs `a` steps, thread B
+  # runs to its end, A finishes - for programs in which one thread reads while the other's call extends an existing
+  # record, first uses of one scope name meet, or a read meets a first call
+  progs = [[[['call', 'f', '', 1], ['read']], [['call', 'f', '', None]]],
+           [[['call', 'g', 'a', 2], ['read'], ['read']], [['call', 'g', 'a', None]]],
+           [[['call', 'f', 'a', 2], ['call', 'f', 'a', None]], [['read'], ['read']]],
+           [[['single', 'k1'], ['read']], [['single', 'k1'], ['single', 'kd']]],
+           [[['read']], [['call', 'g', 'a/b', None], ['call', 'f', 'a/b', None]]]]
+  for threads in progs:
+    for a in range(0, 40 if tier == 'quick' else 120, 1):
+      yield {'dom': 'sched', 'threads': threads, 'schedule': [0] * a + [1] * 80 + [0] * 80}
+      yield {'dom': 'sched', 'threads': threads, 'schedule': [1] * a + [0] * 80 + [1] * 80}
+
+
 # ------------------------------------------------------------------ instrumented shared objects
 class Sched:
   def __init__(self, n, schedule):
